@@ -155,12 +155,18 @@ def convert(input_image_stream, output_image_stream):
             b = ord(iotostr(f.read(1)))
             if b == 0:
                 break
+            if b > y:
+                debug("run-length data exceeds the picture")
+                sys.exit(1)
             a = ord(iotostr(f.read(1)))
             for jj in range(b):
                 dump(a)
                 y = y - 1
                 if y <= 0:
                     break
+        if y > 0:
+            debug("run-length data ends before the picture is complete")
+            sys.exit(1)
     else:
         for jj in range(y):
             dump(ord(iotostr(f.read(1))))
